@@ -103,6 +103,13 @@ func (e *Env) call(x *ECall) Val {
 	case "same":
 		a, b := e.unify(arg(0), arg(1))
 		return g.boolVal(eq(a.S, b.S))
+	case "sameArray":
+		// two slices are views of the same backing array (they may alias)
+		a, b := arg(0), arg(1)
+		if a.Sort != "Slice" || b.Sort != "Slice" {
+			e.fail("sameArray expects two slices")
+		}
+		return g.boolVal(eq(app("s_arr", a.S), app("s_arr", b.S)))
 	case "fresh":
 		v := arg(0)
 		p := v.S
@@ -484,7 +491,19 @@ func (g *Gen) specFunc(sf *SpecFunc) *specDef {
 			}
 		}
 	}
-	if unfoldGround {
+	opaque := false
+	if g.FC != nil {
+		for _, n := range strings.Fields(g.FC.Opts["opaque"]) {
+			if n == sf.Name {
+				opaque = true
+			}
+		}
+	}
+	if opaque {
+		// abstract in this function: an uninterpreted function of its arguments and of the heap maps its body
+		// reads (facts about it come only from callee contracts that mention it)
+		g.declFun(d.name, sorts, d.retSort)
+	} else if unfoldGround {
 		// recursive spec function in ground-unfolding mode: an uninterpreted symbol; every application outside a
 		// quantifier is unfolded exactly once (no quantified definitional axiom, hence no matching loop)
 		g.declFun(d.name, sorts, d.retSort)
